@@ -456,19 +456,19 @@ def twin_family(seed, tier, ws):
                 a = 'empty @is_you() { if (%s) { write(\'T\'); } else { write(\'F\'); } }' % (ctext if t[0] not in 'LBUCI' else '(%s is bool)' % ctext)
                 b = 'empty @is_you(%s) { if (%s) { write(\'T\'); } else { write(\'F\'); } }' % (params, vtext if t[0] not in 'LBUCI' else '(%s is bool)' % vtext)
             items.append(runner.Item(('twin', w, i), a, [], w=w, s=60, sem_src=b, sem_args=args,
-                                     meta={'family': 'twin:' + form, 'twin': (a, b, args), 'classifier': {'form': form}}))
+                                     meta={'family': 'twin:' + form, 'twin': (a, b, args), 'classifier': {'form': form, 'all_constant': True}}))
     # the two shapes of the recorded finding F6, in every run (so that each listed finding is shown on every run)
     if 2 in ws:
         a = 'empty @is_you() { writeln((32767 + 1) / 2); }'
         b = 'empty @is_you(int v0, int v1, int v2) { writeln((v0 + v1) / v2); }'
         args = ['32767', '1', '2']
         items.append(runner.Item(('twin', 2, 'f6'), a, [], w=2, s=60, sem_src=b, sem_args=args,
-                                 meta={'family': 'twin:write', 'twin': (a, b, args), 'classifier': {'form': 'write'}}))
+                                 meta={'family': 'twin:write', 'twin': (a, b, args), 'classifier': {'form': 'write', 'all_constant': True}}))
         a = "empty @is_you() { if (((((1000 % 1) / (-2)) / ((32767 - 7) / (32766 + 127))) is bool)) { write('T'); } else { write('F'); } }"
         b = "empty @is_you(int v0, int v1, int v2, int v3, int v4, int v5, int v6) { if (((((v0 % v1) / v2) / ((v3 - v4) / (v5 + v6))) is bool)) { write('T'); } else { write('F'); } }"
         args = ['1000', '1', '-2', '32767', '7', '32766', '127']
         items.append(runner.Item(('twin', 2, 'f6r'), a, [], w=2, s=60, sem_src=b, sem_args=args,
-                                 meta={'family': 'twin:cond', 'twin': (a, b, args), 'classifier': {'form': 'cond'}}))
+                                 meta={'family': 'twin:cond', 'twin': (a, b, args), 'classifier': {'form': 'cond', 'all_constant': True}}))
     return items
 
 
@@ -522,6 +522,12 @@ empty @is_you(int x, int one, int m1, int z, int ti, int fi) { bool T = ti is bo
   write(side(x) / m1); write(side(x) * m1); write(side(x) - side(x)); write(side(x) == side(x)); write(side(x) / side(x + 1)); write(g); write(' ');
   int v = x; v %= one; write(v); v = x; v *= one; write(v); v /= one; write(v); v += z; write(v); write((side(x) > 0) and T); write((side(x) > 0) or F); write(T and (side(x) > 0)); write(g); }''',
                       [[str(x), '1', '-1', '0', '1', '0'] for x in (5, -7, 0, -1)]))
+# comparisons of `expr +- literal` with a literal near the word extremes: moving the offset across the comparison ignores wrap-around
+FOLD_PROGRAMS.append(('compare_offset', '''empty @is_you(int x) { write(x + 1 > 0); write(x - 1 < 0); write(x + 100 < 50); write(x - 100 > 32000); write(x + 1 >= x); write(1 + x <= 0); write(x * 2 > 10); write(x + 1 == 0 - 32768);
+  write(x + 32767 > 5); write(x - 32767 < 0 - 5); if (x + 2 > 1) { write('T'); } else { write('F'); } try { !truth_is_defeat(x + 1 < 0); write('n'); } undo { write('u'); } write((x is byte) + 1 > 255); }''',
+                      '''empty @is_you(int x, int one, int z, int c100, int c50, int c32000, int two, int c10, int mn, int mx, int c5, int c255) { write(x + one > z); write(x - one < z); write(x + c100 < c50); write(x - c100 > c32000); write(x + one >= x); write(one + x <= z); write(x * two > c10); write(x + one == mn);
+  write(x + mx > c5); write(x - mx < z - c5); if (x + two > one) { write('T'); } else { write('F'); } try { !truth_is_defeat(x + one < z); write('n'); } undo { write('u'); } write((x is byte) + one > c255); }''',
+                      [[str(x), '1', '0', '100', '50', '32000', '2', '10', '-32768', '32767', '5', '255'] for x in (32767, -32768, 0, -1, 32766, -32700, 16384, 255)]))
 # lengths of literal and constant strings / arrays, asked directly (may be folded) and through a variable (the twin)
 FOLD_PROGRAMS.append(('constant_lengths', '''const string CS = "\\u{4e16}\\u{754c}!"; string GS = "\\u{e9}t\\u{e9}"; const int[] CI = [1, 2, 3]; const bool[] CO = [true, false, true, true, false, false, true, false, true];
 empty @is_you(int a) { write("\\u{e9}x".length); write("abc".length); write("".length); write("\\u{1F30E}".length); write(CS.length); write(GS.length); write(CI.length); write(CO.length); write("q\\n\\x00z".length);
